@@ -69,7 +69,9 @@ def verify(d):
     res["baseline_ok"] = rc == 0 and bool(m) and int(m[0][1]) == 51 and all(x[0] == "ok" for x in m)
     subprocess.run(["cp", os.path.join(d, "demo.rs"), demo_dst])
     rc, out = sh(["cargo", "test", "--offline"] + feats + ["--test", "seeded_demo"], cwd=WT)
-    res["demo_fails_patched"] = rc != 0 and "test result: FAILED" in out
+    # a failing #[test], or (for aborts such as a stack overflow) a test binary killed by a signal — never a compile error
+    res["demo_fails_patched"] = rc != 0 and "could not compile" not in out and (
+        "test result: FAILED" in out or "signal:" in out or "has overflowed its stack" in out or "SIGABRT" in out)
     if not res["demo_fails_patched"]:
         print(out[-1500:])
     clean(WT)
